@@ -1,4 +1,4 @@
-import PtVerif.Proofs.Neutron
+import PtVerif.Proofs.NeutronD2O
 /-!
 # C16 — D2O contrast matching agrees with direct substitution of labile hydrogen
 
@@ -12,6 +12,52 @@ Incoherent SLD is documented not to mix linearly and is not claimed for the subs
 -/
 namespace PtVerif.C16
 open PtModel PtModel.Neutron PtProofs.Neutron
+
+/-- **solute = substituted compound.**  For every compound (atom dict with positive counts,
+    known positive density), `0 ≤ d ≤ 1` and every wavelength, the real and imaginary SLD that
+    `D2O_sld(compound, volume_fraction=1, D2O_fraction=d)` reports are those of the compound with a
+    fraction `d` of its labile hydrogens H[1] replaced by D and the rest by natural H
+    (`substituted = mol.replace(H[1], D, d).replace(H[1], H)`; its counts are
+    `substituted_counts`, its cell volume is the original one, `substituted_keeps_cell_volume`). -/
+theorem solute_sld_is_substituted_compound (t : Tbl ℝ) (c : Compound ℝ) (w d : ℝ)
+    (h : SolutePhysical t c w) (hd0 : 0 ≤ d) (hd1 : d ≤ 1) :
+    ∃ x, d2oSld t c w 1 d = some x ∧
+      (compoundSld t (substituted t.atomMass c d) w).map reIm = some (reIm x) :=
+  PtProofs.Neutron.solute_sld_is_substituted_compound t c w d h hd0 hd1
+
+/-- what "substituted" means: the labile hydrogens are gone, D gained `d·n`, H gained `(1−d)·n`,
+    every other count is unchanged -/
+theorem substituted_counts (am : Atom → ℝ) (c : Compound ℝ) (d : ℝ) :
+    lookupD (substituted am c d).atoms atomH1 = 0 ∧
+    lookupD (substituted am c d).atoms atomD = lookupD c.atoms atomD + d * lookupD c.atoms atomH1 ∧
+    lookupD (substituted am c d).atoms atomH
+      = lookupD c.atoms atomH + (1 - d) * lookupD c.atoms atomH1 ∧
+    ∀ b, b ≠ atomH1 → b ≠ atomD → b ≠ atomH →
+      lookupD (substituted am c d).atoms b = lookupD c.atoms b :=
+  PtProofs.Neutron.substituted_counts am c d
+
+/-- … at unchanged cell volume (`Formula.replace` keeps `M/ρ`) -/
+theorem substituted_keeps_cell_volume (am : Atom → ℝ) (c : Compound ℝ) (d : ℝ)
+    (hk : KeysNodup c.atoms) (hM : wsum am c.atoms ≠ 0)
+    (hM1 : wsum am (replace am c atomH1 atomD d).atoms ≠ 0)
+    (hMS : wsum am (substituted am c d).atoms ≠ 0) :
+    cellVolume (wsum am (substituted am c d).atoms) (substituted am c d).density
+      = cellVolume (wsum am c.atoms) c.density :=
+  PtProofs.Neutron.substituted_keeps_cell_volume am c d hk hM hM1 hMS
+
+/-- one `replace` step: every count-weighted sum (mass, Σ n·b, …) changes by
+    `n_source · portion · (f target − f source)` and the density by the mass ratio -/
+theorem replace_sums (am f : Atom → ℝ) (c : Compound ℝ) (s tg : Atom) (p : ℝ)
+    (hk : KeysNodup c.atoms) (hne : s ≠ tg) :
+    wsum f (replace am c s tg p).atoms
+      = wsum f c.atoms + lookupD c.atoms s * p * (f tg - f s) :=
+  PtProofs.Neutron.replace_wsum am f c s tg p hk hne
+
+theorem replace_density (am : Atom → ℝ) (c : Compound ℝ) (s tg : Atom) (p : ℝ)
+    (hk : KeysNodup c.atoms) (hne : s ≠ tg) (hM : wsum am c.atoms ≠ 0) :
+    (replace am c s tg p).density
+      = c.density * wsum am (replace am c s tg p).atoms / wsum am c.atoms :=
+  PtProofs.Neutron.replace_density am c s tg p hk hne hM
 
 /-- **volume fraction 0** is the H2O/D2O solvent mixture (all three components) -/
 theorem vf0_is_solvent (t : Tbl ℝ) (c : Compound ℝ) (w d : ℝ) :
@@ -65,5 +111,56 @@ theorem fasta_water_eq_nsf_water :
     (PtGen.fasta_H2O_natural_density : ℝ) = PtGen.nsf_H2O_natural_density ∧
     (PtGen.fasta_D2O_natural_density : ℝ) = PtGen.nsf_D2O_natural_density :=
   PtProofs.Neutron.fasta_water_eq_nsf_water
+
+/-! ### non-vacuity: alanine-like `C3 H4 H[1] N O` over a small table satisfies `SolutePhysical` -/
+
+noncomputable def exTbl : Tbl ℝ where
+  recOf := fun z a =>
+    if z = 1 ∧ a = 0 then some ⟨-3.739, 0.3326, 82.02, 4.2e22, none⟩
+    else if z = 1 ∧ a = 1 then some ⟨-3.7406, 0.3326, 82.03, 4.2e22, none⟩
+    else if z = 1 ∧ a = 2 then some ⟨6.671, 0.000519, 7.64, 4.2e22, none⟩
+    else if z = 6 ∧ a = 0 then some ⟨6.646, 0.0035, 5.551, 1.1e23, none⟩
+    else if z = 7 ∧ a = 0 then some ⟨9.36, 1.9, 11.51, 3.5e22, none⟩
+    else if z = 8 ∧ a = 0 then some ⟨5.803, 0.00019, 4.232, 4.3e22, none⟩
+    else none
+  mass := fun z a => if z = 1 then (if a = 2 then 2.014 else 1.008) else if z = 6 then 12.011
+    else if z = 7 then 14.007 else 15.999
+  me := 0
+
+def exAla : Compound ℝ :=
+  ⟨[(⟨6, 0, 0⟩, 3), (⟨1, 0, 0⟩, 4), (⟨1, 1, 0⟩, 1), (⟨7, 0, 0⟩, 1), (⟨8, 0, 0⟩, 1)], 1.4⟩
+
+theorem exTbl_mass_pos (a : Atom) : 0 < exTbl.atomMass a := by
+  simp only [Tbl.atomMass, PtModel.atomMass, exTbl, mul_zero, sub_zero, ite_self]
+  split_ifs <;> norm_num
+
+theorem exTbl_im_nonpos (w : ℝ) (a : Atom) : (pa exTbl w a).1.2 ≤ 0 := by
+  have h0 := lambda0_pos
+  unfold pa Tbl.neutron exTbl
+  simp only
+  split_ifs <;> simp only [scatteringByWavelength, NRec.bcComplex, lit, le_refl] <;>
+    first
+    | (apply div_nonpos_of_nonpos_of_nonneg
+       · norm_num
+       · push_cast; positivity)
+    | norm_num
+
+example : SolutePhysical exTbl exAla 1.798 where
+  keys := by unfold KeysNodup exAla; decide
+  data := by
+    intro e he
+    simp [exAla] at he
+    rcases he with rfl | rfl | rfl | rfl | rfl <;> simp [exTbl, Tbl.neutron]
+  dataH := by simp [exTbl, Tbl.neutron, atomH]
+  dataD := by simp [exTbl, Tbl.neutron, atomD]
+  dataO := by simp [exTbl, Tbl.neutron, atomO]
+  nonempty := by simp [exAla]
+  counts := by
+    intro e he
+    simp [exAla] at he
+    rcases he with rfl | rfl | rfl | rfl | rfl <;> norm_num
+  masses := exTbl_mass_pos
+  density := by simp [exAla]; norm_num
+  im := exTbl_im_nonpos 1.798
 
 end PtVerif.C16
